@@ -68,8 +68,9 @@ if apply:
             if v:
                 cur = e.get(k, "")
                 if isinstance(cur, list):
-                    if v not in cur:
-                        cur.append(v)
+                    for item in (v if isinstance(v, list) else [v]):
+                        if item not in cur:
+                            cur.append(item)
                 elif v not in cur:
                     e[k] = (cur + " " + v).strip()
         if frag.get("partial_replace"):
